@@ -3,9 +3,11 @@
 Proof: lean/Mustache/Props/C11.lean (`quiescent`, `no_self_retrigger`, `const_access_never_stamps`,
 `chunk_precise`, `processed_whole_chunks`, `quiescent_untouched`, `chunk_size_resolution`, ...) over
 Model/Versions.lean + Model/ChunkSize.lean. Tie: harness/version_driver.cpp vs `driver versions`.
-Oracle (on the implementation's own output): processed entities of a version-filtered job lie in `touched`
+Oracle (on the implementation's own output): processed entities of a job with a check mask lie in `touched`
 chunks (ghost), whole chunks clipped to the population, none when nothing is touched; every archetype's
 chunkCapacity equals the specified resolution, contradictory configurations are rejected.
+Open known finding `check-outside-archetype` (known_findings.txt): corpus/C11/corner-check-outside-required.ops is
+replayed on every run; while it reproduces, KNOWN-FINDING is printed (ctx.known); without the entry it is a VIOLATION.
 """
 import os
 import sys
@@ -46,10 +48,13 @@ def run(ctx):
             partial_last_chunks_processed=st.get("partial_last_chunk_processed", 0),
             archetypes_created=st.get("arch_created", 0), rejected_configurations=st.get("rejections", 0),
             chunk_sizes_seen=st.get("cs_seen", {}), relocations_by_removal=st.get("relocations", 0),
+            histories_showing_known_finding_check_outside_archetype=s["known_outside_histories"],
             tie_divergences=s["tie_breaks"], searched_after_divergence=s["searched"])
-    ctx.assume("a job is version-filtered on an archetype when its check mask meets the archetype's mask; where it does "
-               "not, the implementation selects every entity (not change detection; compared by the tie only)",
-               "applying chunk-size functions give 1 <= min <= max, default chunk size >= 1 (DESIGN 3.3); a function "
-               "returning {min>0, max=0} is rejected by the code's `max < min` test and is outside the contract",
+    ctx.assume("open known finding key=check-outside-archetype: a job with a non-empty check mask none of whose "
+               "components the matched archetype has is never quiescent there (corpus/C11/corner-check-outside-required.ops "
+               "is replayed on every run; generated jobs keep the check mask inside the required mask); every other "
+               "quiescence / precision failure is a violation",
+               "a job with an EMPTY check mask is unfiltered by design (PerEntityJob default) and selects everything",
+               "default chunk size >= 1 (DESIGN 3.3); min = 0 / max = 0 of a chunk-size function mean no bound",
                "32-bit world version does not wrap (w < 2^32); World::init() outside the operation set",
                "jobs run in JobRunMode::kCurrentThread (task splitting is C04/C06)")
